@@ -45,6 +45,10 @@ Proof.
   rewrite map_map. apply map_ext. apply lower_ascii_idem.
 Qed.
 
+Lemma set_value_exact_or_case c v :
+  (keyword_attr c = false -> norm_value c v = v) /\ map lower_ascii (norm_value c v) = map lower_ascii v.
+Proof. split; [apply norm_value_exact | apply norm_value_case]. Qed.
+
 (* ------------------------------------------------------------------ the written value (C05) *)
 
 (* the value Set writes is print_raw false v; it reads back as v - for every string *)
